@@ -42,6 +42,10 @@ type Parser struct {
 	objTree     *ObjectTree
 	scopeStack  []uint32
 	pkgEndStack []uint32
+
+	// scopePkgDepth[i] is the depth of pkgEndStack at the time scopeStack[i]
+	// was entered, i.e. it identifies the package that delimits the scope.
+	scopePkgDepth []int
 	streamEnd   uint32
 
 	resolvePasses    uint32
@@ -173,6 +177,7 @@ func (p *Parser) resetState(tableHandle uint8, tableName string) {
 	p.mode = parseModeSkipAmbiguousBlocks
 
 	p.scopeStack = nil
+	p.scopePkgDepth = nil
 	p.pkgEndStack = nil
 
 }
@@ -189,9 +194,11 @@ func (p *Parser) parseObjectList() parseResult {
 			}
 		}
 
-		// If the pkgEnd stack matches the scope stack this means the parser
-		// completed a scoped block and we need to pop it from the stack
-		if len(p.pkgEndStack) == len(p.scopeStack) {
+		// If the package that just ended is the one that delimits the
+		// current scope this means the parser completed a scoped block and
+		// we need to pop it from the stack. Packages that do not open a
+		// scope in this pass (e.g. If blocks) must leave the stack alone.
+		if p.scopePkgDepth[len(p.scopePkgDepth)-1] == len(p.pkgEndStack) {
 			p.scopeExit()
 		}
 		p.popPkgEnd()
@@ -988,11 +995,13 @@ func (p *Parser) scopeCurrent() *Object {
 // scopeEnter enters the given scope.
 func (p *Parser) scopeEnter(index uint32) {
 	p.scopeStack = append(p.scopeStack, index)
+	p.scopePkgDepth = append(p.scopePkgDepth, len(p.pkgEndStack))
 }
 
 // scopeExit exits the current scope.
 func (p *Parser) scopeExit() {
 	p.scopeStack = p.scopeStack[:len(p.scopeStack)-1]
+	p.scopePkgDepth = p.scopePkgDepth[:len(p.scopePkgDepth)-1]
 }
 
 func (p *Parser) pushPkgEnd(pkgEnd uint32) error {
